@@ -338,6 +338,16 @@ func (rc *runCtx) params(h HSpec) map[string]int {
 			m[k] = v
 		}
 	}
+	// VERIF_SET=K=10,S=4 overrides parameters (experiments only; never used by registered commands)
+	if o := os.Getenv("VERIF_SET"); o != "" {
+		for _, kv := range strings.Split(o, ",") {
+			if i := strings.Index(kv, "="); i > 0 {
+				if v, err := strconv.Atoi(kv[i+1:]); err == nil {
+					m[kv[:i]] = v
+				}
+			}
+		}
+	}
 	return m
 }
 
